@@ -2,6 +2,7 @@ package olayer
 
 import (
 	"fmt"
+	"regexp"
 	"strconv"
 	"strings"
 
@@ -17,7 +18,15 @@ type SigTable map[string]*contract.Func
 // Family finds the generator function contract serving a request.
 //
 //	serves: <plugin> len=<n> <param>=typs[<i>] | <param>=typs
-func (b *Builder) Family(plugin string, n int, kind0 geval.Kind, same ...bool) (*contract.Func, map[string]string, error) {
+func (b *Builder) Family(plugin string, n int, kinds []geval.Kind, same ...bool) (*contract.Func, map[string]string, error) {
+	kind0, ekind := geval.KUnknown, geval.KUnknown
+	if len(kinds) > 0 {
+		kind0 = kinds[0]
+	}
+	if len(kinds) > n && n > 0 {
+		ekind = kinds[n]
+		kinds = kinds[:n]
+	}
 	var keys []string
 	for k := range b.Contracts.Funcs {
 		keys = append(keys, k)
@@ -47,6 +56,19 @@ func (b *Builder) Family(plugin string, n int, kind0 geval.Kind, same ...bool) (
 				if kv[0] == "len" {
 					m, _ := strconv.Atoi(kv[1])
 					if m != n {
+						ok = false
+					}
+					continue
+				}
+				if kv[0] == "ekind" {
+					// kind of the element type of the request's first type
+					if ekind.String() != kv[1] {
+						ok = false
+					}
+					continue
+				}
+				if kv[0] == "kind1" {
+					if len(kinds) < 2 || kinds[1].String() != kv[1] {
 						ok = false
 					}
 					continue
@@ -108,16 +130,18 @@ func (st SigTable) Render(in *Instance, plugin string, typs []*geval.SymType) (s
 	if err != nil {
 		return "", err
 	}
-	sig := c.Attr("o-sig")
-	if sig == "" {
-		return "", fmt.Errorf("contract of %s has no o-sig attribute", c.Key)
-	}
 	args, err := BindRequest(bind, typs)
 	if err != nil {
 		return "", err
 	}
-	return in.SubstTypes(sig, args)
+	sigs := in.pickGuarded(c.Attrs["o-sig"], args, nil)
+	if len(sigs) != 1 {
+		return "", fmt.Errorf("contract of %s has %d applicable o-sig attributes for this request (want 1)", c.Key, len(sigs))
+	}
+	return in.SubstTypes(sigs[0], args)
 }
+
+var projRe = regexp.MustCompile(`^(param|result)(\d)$`)
 
 // SubstTypes replaces $-references to generator-level types by type expressions.
 //
@@ -157,7 +181,11 @@ func (in *Instance) parseTypeRef(s string, args map[string]geval.Value) (*geval.
 		j++
 	}
 	name := s[:j]
-	if j < len(s) && s[j] == '(' && (name == "elem" || name == "key" || name == "under" || name == "ptr") {
+	isProj := name == "elem" || name == "key" || name == "under" || name == "ptr"
+	if m := projRe.FindStringSubmatch(name); m != nil {
+		isProj = true
+	}
+	if j < len(s) && s[j] == '(' && isProj {
 		inner, n, err := in.parseTypeRef(s[j+1:], args)
 		if err != nil {
 			return nil, 0, err
@@ -177,6 +205,17 @@ func (in *Instance) parseTypeRef(s string, args map[string]geval.Value) (*geval.
 				return inner, end + 1, nil
 			}
 			return &geval.SymType{ID: inner.ID, Desc: inner.Desc, Root: inner}, end + 1, nil
+		}
+		if m := projRe.FindStringSubmatch(name); m != nil {
+			idx, _ := strconv.Atoi(m[2])
+			tup := f.Params
+			if m[1] == "result" {
+				tup = f.Results
+			}
+			if tup == nil || idx >= len(tup.Vars) {
+				return nil, 0, fmt.Errorf("type reference %s(%s): the signature has no such component on this path", name, inner)
+			}
+			return tup.Vars[idx].Type, end + 1, nil
 		}
 	}
 	v, ok := args[name]
@@ -210,16 +249,118 @@ func (in *Instance) parseTypeRef(s string, args map[string]geval.Value) (*geval.
 }
 
 // kind0: the kind of the first type of a request (for generator functions that serve one kind only).
-func (in *Instance) kind0(typs []*geval.SymType) geval.Kind {
-	if len(typs) == 0 {
-		return geval.KUnknown
+func (in *Instance) kind0(typs []*geval.SymType) []geval.Kind {
+	var ks []geval.Kind
+	for _, t := range typs {
+		k := geval.KUnknown
+		if f := in.fact(t); f != nil {
+			k = f.Kind
+		}
+		ks = append(ks, k)
 	}
-	if f := in.fact(typs[0]); f != nil {
-		return f.Kind
+	// appended: the kind of the first type's element type (for "ekind=")
+	ek := geval.KUnknown
+	if len(typs) > 0 {
+		if f := in.fact(typs[0]); f != nil && f.Elem != nil {
+			if ef := in.fact(f.Elem); ef != nil {
+				ek = ef.Kind
+			}
+		}
 	}
-	return geval.KUnknown
+	return append(ks, ek)
 }
 
 func sameTypes(typs []*geval.SymType) bool {
 	return len(typs) >= 2 && typs[0].R() == typs[1].R() && typs[0].IsView() == typs[1].IsView()
+}
+
+var guardRe = regexp.MustCompile(`^(nresults|nparams|kind|len|named)\((.*)\)(=|>=)(\w+)$`)
+
+// Guard evaluates a "when" condition of an o-clause against the types bound to
+// the generator function's parameters:
+//
+//	nresults(ref)=N  nparams(ref)=N  nresults(ref)>=N  kind(ref)=K  len(name)=N  named(ref)=yes|no
+//
+// ok is false when the text is not such a condition.
+func (in *Instance) Guard(g string, args map[string]geval.Value) (holds, ok bool) {
+	m := guardRe.FindStringSubmatch(strings.TrimSpace(g))
+	if m == nil {
+		return false, false
+	}
+	cmp := func(have int) bool {
+		want, _ := strconv.Atoi(m[4])
+		if m[3] == ">=" {
+			return have >= want
+		}
+		return have == want
+	}
+	if m[1] == "len" {
+		sv, isSlice := args[m[2]].(*geval.SliceVal)
+		if !isSlice {
+			return false, true
+		}
+		return cmp(len(sv.Elems)), true
+	}
+	t, err := in.ResolveTypeRef(m[2], args)
+	if err != nil {
+		return false, true
+	}
+	f := in.fact(t)
+	if f == nil {
+		return false, true
+	}
+	switch m[1] {
+	case "nresults":
+		if f.Results == nil {
+			return false, true
+		}
+		return cmp(len(f.Results.Vars)), true
+	case "nparams":
+		if f.Params == nil {
+			return false, true
+		}
+		return cmp(len(f.Params.Vars)), true
+	case "kind":
+		return f.Kind.String() == m[4], true
+	case "named":
+		if m[4] == "yes" {
+			return !t.IsView() && f.Named == geval.Yes, true
+		}
+		return t.IsView() || f.Named == geval.No, true
+	}
+	return false, true
+}
+
+// pickGuarded returns the values of an attribute whose "when <guard>" prefix
+// (if any) holds, with the prefix removed.
+func (in *Instance) pickGuarded(vals []string, args map[string]geval.Value, decisions []string) []string {
+	var out []string
+	for _, v := range vals {
+		t := strings.TrimSpace(v)
+		keep := true
+		for strings.HasPrefix(t, "when ") {
+			ws := strings.SplitN(t, " ", 3)
+			if len(ws) < 3 {
+				keep = false
+				break
+			}
+			holds, ok := in.Guard(ws[1], args)
+			if !ok {
+				for _, d := range decisions {
+					if d == ws[1] {
+						holds = true
+					}
+				}
+			}
+			if !holds {
+				keep = false
+				break
+			}
+			t = strings.TrimSpace(ws[2])
+		}
+		if keep {
+			out = append(out, t)
+		}
+	}
+	return out
 }
